@@ -605,7 +605,7 @@ pub fn strategy() -> BoxedStrategy<Case> {
                 prob.mag2 = mag2;
                 // finding K4 (finite-difference Jacobian of a state that is small in absolute terms) is excluded by
                 // construction: those cases use the analytic Jacobian
-                let analytic_jac = analytic_jac || (method.implicit() && mag2 < 0);
+                let analytic_jac = analytic_jac || (method.implicit() && mag2 < 0 && std::env::var_os("VF_C01_KEEP_K4").is_none());
                 Case { prob, span, method, e, rtol_vec, atol_q, atol_vector, mode: mode.clone(), t_eval, analytic_jac, rk4_steps, rk4_frac, dummy, field: None }
             })
     };
